@@ -76,6 +76,10 @@ def run(ctx):
             bycls.setdefault(json.dumps(s["writes"], sort_keys=True), []).append(s)
         others = []
         nor = [l for l in CANON if l != "r"]
+        # always: the request buffer is reused while the envelope entry is still queued ("wu"), then persist,
+        # crash, recovery -- for the plain columnar classes
+        chosen += [s for s in entry if s["sched"] == ["wu"] + CANON[1:] and s["writes"][0]["sp"] == "none"
+                   and s["writes"][0]["ts"] == "normal" and s["writes"][0]["sz"] == "small"]
         for k in sorted(bycls):
             lst = bycls[k]
             canon = [s for s in lst if [l for l in s["sched"] if l != "r"] == nor]
@@ -127,7 +131,7 @@ def run(ctx):
     drv = ctx.go_build("walrecover")
     gen = ctx.path("verifwalcb.go")
     ctx.run([drv, "-extract", os.path.join(REPO, "cmd", "arc", "main.go"), "-out", gen], timeout=60)
-    ov = ctx.make_overlay([], extra={"internal/verifwalcb/cb.go": gen})
+    ov = ctx.make_overlay(["walrecover"], extra={"internal/verifwalcb/cb.go": gen})
     child = ctx.go_build("walrecoverchild", overlay=ov, timeout=1800)
     sp = ctx.path("scenarios.json")
     json.dump(chosen, open(sp, "w"))
